@@ -446,8 +446,10 @@ func (f *frame) appendHeaps(st *State, et types.Type, s, t string, inplace strin
 		c.assume(st, fmt.Sprintf("(forall ((r Ref)) (! (= (select %s r) (ite %s %s %s)) :pattern ((select %s r))))", nh, inplace, inpl, fresh, nh))
 		// derived lemma (a consequence of the definition above in both branches, stated so that E-matching finds it
 		// from a read of the RESULT slice): the first len(s) elements of the result are the elements of s.
-		if res != "" {
-			c.assume(st, fmt.Sprintf("(forall ((i Int)) (! (=> (and (<= 0 i) (< i (slen %s))) (= (select %s (selem %s i)) (select %s (selem %s i)))) :pattern ((selem %s i)) :pattern ((selem %s i))))", s, nh, res, cur, s, res, s))
+		// Only for slices of single-cell elements (pointers, interfaces, scalars): a slice of structs has one heap per
+		// leaf field; for those the in-place reference identity stated by doAppend is enough.
+		if res != "" && !isStruct(et) {
+			c.assume(st, fmt.Sprintf("(forall ((i Int)) (! (=> (and (<= 0 i) (< i (slen %s))) (= (select %s (selem %s i)) (select %s (selem %s i)))) :pattern ((selem %s i))))", s, nh, res, cur, s, res))
 			// ... and the first appended element (ground instance: puts the term result[len(s)] into the E-graph)
 			c.assume(st, fmt.Sprintf("(=> (< 0 %s) (= (select %s (selem %s (slen %s))) (select %s (selem %s 0))))", n, nh, res, s, cur, t))
 		}
@@ -478,7 +480,17 @@ func (f *frame) doAppend(cm *ssa.CallCommon, pos token.Pos, st *State, name stri
 	// Go: append(nil, <empty>) returns nil; our model returns a non-nil empty slice in that case only
 	// when cap is exceeded, which cannot happen for n = 0 (0 <= cap). Fine.
 	f.tagAlloc(st, id, et)
-	f.appendHeaps(st, et, s.T, t.T, inplace, id, res)
+	// Derived facts about the result of an append (consequences of the definition in appendHeaps, stated so that
+	// E-matching finds them from a read of the RESULT slice). They cost a quantifier per append (and per element heap),
+	// which slowed functions with dozens of appends by 25-80%, so they are emitted only for functions whose contract
+	// asks for them with `//@ appendfacts`.
+	facts := ""
+	if f.c.contract != nil && f.c.contract.AppendFacts {
+		facts = res
+		// in-place case: res shares array and offset with s, so the element references coincide
+		c.assume(st, fmt.Sprintf("(=> %s (forall ((i Int)) (! (= (selem %s i) (selem %s i)) :pattern ((selem %s i)))))", inplace, res, s.T, res))
+	}
+	f.appendHeaps(st, et, s.T, t.T, inplace, id, facts)
 	return Val{T: res, Typ: slT}
 }
 
